@@ -22,6 +22,8 @@ pub struct QGen {
   pub phrases: bool,
   /// only prefix expansions (no wildcard / regex)
   pub prefix_only: bool,
+  /// function_score nodes may carry `min_score` (only for differential checks: what it drops is not documented)
+  pub min_score: bool,
 }
 
 impl QGen {
@@ -37,6 +39,7 @@ impl QGen {
       expansions: true,
       phrases: true,
       prefix_only: false,
+      min_score: false,
     }
   }
 
@@ -270,8 +273,8 @@ impl QGen {
       let rank = self.rank.clone();
       opts.push((
         1,
-        (sub.clone(), select(vec![0.5f64, 2.0, 10.0]), select(vec!["multiply", "sum", "replace", "max", "min"]), select(vec!["sum", "multiply", "max", "min", "avg"]), proptest::option::weighted(0.5, select(if rank.is_empty() { vec!["".to_string()] } else { rank.clone() })), proptest::option::weighted(0.4, select(vec!["exp", "gauss", "linear"])), proptest::option::weighted(0.3, c08::root_filter(&self.schema, 1)), proptest::option::weighted(0.2, select(vec![1.5f64, 4.0])))
-          .prop_map(move |(q, w, bm, sm, fvf, decay, wfilter, max_boost)| {
+        (sub.clone(), select(vec![0.5f64, 2.0, 10.0]), select(vec!["multiply", "sum", "replace", "max", "min"]), select(vec!["sum", "multiply", "max", "min", "avg"]), proptest::option::weighted(0.5, select(if rank.is_empty() { vec!["".to_string()] } else { rank.clone() })), proptest::option::weighted(0.4, select(vec!["exp", "gauss", "linear"])), proptest::option::weighted(0.3, c08::root_filter(&self.schema, 1)), proptest::option::weighted(0.2, select(vec![1.5f64, 4.0])), proptest::option::weighted(if self.min_score { 0.4 } else { 0.0 }, select(vec![0.31f64, 0.83, 1.71, 3.13])))
+          .prop_map(move |(q, w, bm, sm, fvf, decay, wfilter, max_boost, min_score)| {
             let mut wf = json!({"type": "weight", "weight": w});
             if let Some(f) = wfilter {
               wf["filter"] = f;
@@ -285,7 +288,10 @@ impl QGen {
             if let (Some(d), Some(f)) = (decay, rank.first()) {
               functions.push(json!({"type": "decay", "field": f, "origin": 10.0, "scale": 5.0, "offset": 1.0, "decay": 0.5, "function": d}));
             }
-            let v = json!({"type": "function_score", "query": q, "functions": functions, "boost_mode": bm, "score_mode": sm});
+            let mut v = json!({"type": "function_score", "query": q, "functions": functions, "boost_mode": bm, "score_mode": sm});
+            if let Some(m) = min_score {
+              v["min_score"] = json!(m);
+            }
             // max_boost is left out: what it caps is not documented
             let _ = max_boost;
             v
